@@ -255,6 +255,22 @@ impl C05 {
                 }
             }
         }
+        // ... and so does a thread that has never lifted anything before (the answer must not depend on what
+        // this thread lifted earlier, e.g. with another translator)
+        if rng.chance(1, 300) {
+            let (tn, b, o) = (tname.to_string(), bytes.to_vec(), options.clone());
+            let fresh = std::thread::spawn(move || {
+                let t = translator(&tn);
+                guard(|| t.translate_block(&b, address, &o)).ok().map(|r| result_fingerprint(&r))
+            })
+            .join();
+            ctx.count("fresh_thread_comparisons");
+            if let Ok(Some(fp)) = fresh {
+                if fp != result_fingerprint(&r) {
+                    ctx.violation(&format!("{}:lift-depends-on-earlier-lifts", tname), input());
+                }
+            }
+        }
         match r {
             Err(_) => {
                 ctx.count(&format!("{}.rejected", tname));
